@@ -1,5 +1,5 @@
 #!/usr/bin/env python3
-"""Regenerate seeded/README.md and seeded/<id>/meta.json from confirm.json + result-*.json."""
+"""Regenerate seeded/README.md from confirm.json + result-*.json (meta.json is written by tools/seedmeta.py)."""
 import glob, json, os
 V = os.path.dirname(os.path.dirname(os.path.abspath(__file__)))
 rows = []
@@ -23,8 +23,8 @@ for d in sorted(glob.glob(os.path.join(V, "seeded", "C*-*"))):
         ),
         caught_by=sorted({o.split(" in ")[0].replace("failed obligation: ", "") for r in caught for o in r["failed_obligations"]})[:6],
     )
-    json.dump(meta, open(os.path.join(d, "meta.json"), "w"), indent=1)
-    rows.append((sid, conf.get("confirmed"), "; ".join(f'{r["property"]}/{r["tier"]}: ' + ("CAUGHT" if r["caught"] else f'missed (exit {r["exit"]})') for r in results) or "not run",
+    only = lambda r: (" [" + " ".join(x for x in r["cmd"].split() if x.startswith("dated_") or x.startswith("rule_") or x.startswith("cal_") or x.startswith("usv_")) + "]") if "--only" in r["cmd"] else ""
+    rows.append((sid, conf.get("confirmed"), "; ".join(f'{r["property"]}/{r["tier"]}{only(r)}: ' + ("CAUGHT" if r["caught"] else f'missed (exit {r["exit"]})') for r in results) or "not run",
                  ", ".join(meta["caught_by"][:2])))
 with open(os.path.join(V, "seeded", "README.md"), "w") as f:
     f.write("# Seeded changes (written by sub-agents from the property text only; confirmed by tools/seedconfirm.py)\n\n")
